@@ -9,14 +9,15 @@ ID = "C07"
 RULE = (
     "One part; shards = dialect (48) x number of attributes n = 0..3 (quick) / 0..4 (thorough). Per shard: each attribute "
     "single/2-valued/3-valued/valueless flag (no flag first in key=value styles) x one optional special value in any valued attribute "
-    "(quick: only for n <= 2): in GFF3-style dialects one of 12 escaped characters (8 reserved, NUL, 0x01, 0x1f, 0x7f) x position "
-    "first/middle/last; in GTF-style (quoted) dialects one of 7 raw data values ('=', '&', '%', '+', '%3B', 'a=b c=d', a value with two "
-    "consecutive blanks) x position x 14 column / extra-column variants (quick with n = 3: the first 6), incl. '.' coordinates (both or "
-    "one), scores/frames, empty and JSON-looking extra columns, integers beyond 2^53. Every line is parsed by feature_from_line and "
-    "printed; compared with the generator's expectation: ordered attributes, 8 columns, extra columns, inferred dialect (observable "
-    "projection), byte-identical print; without extra columns the blank-separated rendering parsed with strict=False must give an equal "
-    "feature. All executions are distinct choice sequences; non-trivial = the line has >= 2 attribute parts, or an escape/special "
-    "value, or extra columns, or '.' start coordinate."
+    "(quick: only for n <= 2): in GFF3-style dialects one of 13 specials (12 escaped characters: 8 reserved, NUL, 0x01, 0x1f, 0x7f; and "
+    "the two-word text 'q w', nothing to escape) x position first/middle/last; in GTF-style (quoted) dialects one of 7 raw data values "
+    "('=', '&', '%', '+', '%3B', 'a=b c=d', a value with two consecutive blanks) x position x 14 column / extra-column variants (quick "
+    "with n = 3: the first 6), incl. '.' coordinates (both or one), scores/frames, empty and JSON-looking extra columns, integers "
+    "beyond 2^53. Every line is parsed by feature_from_line and printed; compared with the generator's expectation: ordered attributes, "
+    "8 columns, extra columns, inferred dialect (observable projection), byte-identical print; a line with >= 1 attribute part is "
+    "parsed again with the inferred dialect handed over and must give the same attributes and print; without extra columns the "
+    "blank-separated rendering parsed with strict=False must give an equal feature. All executions are distinct choice sequences; "
+    "non-trivial = the line has >= 2 attribute parts, or an escape/special value, or extra columns, or '.' start coordinate."
 )
 ASSUMPTIONS = [
     "keys are \\w+ (GFF3 is recognised by key= at the very start, so a valueless flag is never first in key=value style)",
